@@ -7,6 +7,7 @@
    the fuel Oplog::open uses always suffices (termination). Partial: the composition "reader of the four
    files = API state for every reachable state" is checked by the independent reader of tools/c06.py
    at every operation boundary, not proved; user_data / reorgs are outside the model. *)
+From HC Require Import Base Codec Crypto Storage Bitfield Oplog Merkle SrcConsts ConstTie.
 From HC Require Import Base Codec CodecFacts Crypto Storage Bitfield Oplog OplogFacts.
 From HC Require Merkle.
 
@@ -49,6 +50,21 @@ Theorem C06_slot_rule : forall bits, let '(slot, _, bits') := next_slot bits in
   (slot = 0 <-> fst bits <> snd bits) /\ (Bool.eqb (fst bits') (snd bits') = true <-> slot = 0).
 Proof. exact slot_choice. Qed.
 
+(* Tie to the source, regenerated on every run: the crate's named constants (parsed from /repo/src by
+   tools/srcconsts.py into SrcConsts.v) are the values the model uses; `tied None _` (constant renamed away) is True. *)
+Theorem C06_source_constants :
+  tied src_NODE_SIZE NODE_SIZE /\ tied src_MAX_OPLOG_ENTRIES_BYTE_SIZE MAX_OPLOG_ENTRIES_BYTE_SIZE /\
+  tied src_HEADER_SIZE HEADER_SIZE /\ tied (option_map (N.mul 2) src_HEADER_SIZE) ENTRIES_OFFSET /\
+  tied src_INITIAL_HEADER_BITS [fst INITIAL_HEADER_BITS; snd INITIAL_HEADER_BITS] /\
+  tied src_DYNAMIC_BITFIELD_PAGE_SIZE PAGE_BITS /\ tied src_FIXED_BITFIELD_BITS_LENGTH PAGE_BITS /\
+  tied src_FIXED_BITFIELD_BYTES_LENGTH PAGE_BYTES /\ tied (option_map (N.mul 4) src_FIXED_BITFIELD_LENGTH) PAGE_BYTES /\
+  tied src_TREE TREE_NS /\ tied src_DEFAULT_NAMESPACE DEFAULT_NAMESPACE /\
+  tied src_LEAF_TYPE (firstn 1 (leaf_preimage [])) /\ tied src_ROOT_TYPE (firstn 1 (tree_preimage [])) /\
+  (forall a b, tied src_PARENT_TYPE (firstn 1 (parent_preimage a b))) /\
+  (forall cr bit partial payload fr, frame cr bit partial payload = Ok fr ->
+     tied src_LEADER_SIZE (len fr - len payload) /\ tied src_CRC_SIZE (len (le_bytes 4 (cr_crc cr [])))).
+Proof. exact source_constants_are_the_models. Qed.
+
 Print Assumptions C06_header_roundtrip.
 Print Assumptions C06_entry_roundtrip.
 Print Assumptions C06_entry_encodes.
@@ -57,3 +73,4 @@ Print Assumptions C06_node_roundtrip.
 Print Assumptions C06_scan_reads_js_entries.
 Print Assumptions C06_trailing_partials_dropped.
 Print Assumptions C06_slot_rule.
+Print Assumptions C06_source_constants.
